@@ -212,6 +212,33 @@ def convertible(s):
     if not isinstance(s, dict) or "$ref" in s: return False
     return bool(set(s) - set(META_KEYS))     # not the `{}` schema
 
+_ANNOT_KEYS = {"title", "description", "$comment", "examples", "readOnly", "writeOnly", "deprecated"}
+def ref_uses(doc, defname):
+    """[(definition key D, [property names])]: properties of D (its own, or those of the members of its allOf, references to
+    object definitions followed) EVERY declaration of which is a plain `$ref` to `defname` (annotations aside)"""
+    defs = doc.get("definitions") or doc.get("$defs") or {}
+    target = "#/definitions/" + gen.ptr_escape(defname) if "definitions" in doc else "#/$defs/" + gen.ptr_escape(defname)
+    def decls(s, fuel, acc):
+        """property name -> list of declared schemas, over an object schema / allOf of such / references to such"""
+        if fuel <= 0 or not isinstance(s, dict): return False
+        if "$ref" in s and not (set(s) - _ANNOT_KEYS - {"$ref"}):
+            try: return decls(gen.resolve_ref(doc, s["$ref"]), fuel - 1, acc)
+            except Exception: return False
+        if set(s) & {"oneOf", "anyOf", "not", "if", "$ref", "patternProperties"}: return False
+        ok = True
+        for m in s.get("allOf", []): ok = decls(m, fuel - 1, acc) and ok
+        for pn, ps in (s.get("properties") or {}).items(): acc.setdefault(pn, []).append(ps)
+        return ok
+    out = []
+    for D, s in defs.items():
+        if D == defname: continue
+        acc = {}
+        if not decls(s, 5, acc): continue
+        ps = [pn for pn, ds in acc.items()
+              if all(isinstance(x, dict) and x.get("$ref") == target and not (set(x) - _ANNOT_KEYS - {"$ref"}) for x in ds)]
+        if ps: out.append((D, ps))
+    return out
+
 def draw_plans(rng, tag, doc, base, n, thorough):
     """settings assignments drawn from the document's own definitions / subschemas (base = default-settings answer)"""
     es = irutil.entries(base["dump"]); nm = irutil.named(base["dump"]); r2i = base["dump"]["ref_to_id"]
@@ -395,6 +422,16 @@ def oracle_case(plan, base, a, real0, real):
             tid = irutil.named(base["dump"]).get(n, (None,))[0]
             if tid not in below: f.append(("replace", "item %s disappeared although it does not belong to the replaced definition" % n))
         for n in sorted(set(items) - set(items0)): f.append(("replace", "item %s appears only with the replacement" % n))
+        # read off the SCHEMA, not off the default run: a member every declaration of which refers to the replaced definition
+        # has the replacement type
+        for D, ps in ref_uses(plan.doc, info["def"]):
+            dt = es0.get(base["dump"]["ref_to_id"].get("def:" + D))
+            it = items.get(dt["name"]) if dt and dt.get("name") else None
+            if not it or it.get("kind") != "struct": continue
+            have = sum(1 for fl in it.get("fields", []) if path in ns(fl["ty"]))
+            if have < len(ps):
+                f.append(("replace", "%s: the members %s are declared as references to %s, but only %d member(s) of %s have the type %s"
+                          % (D, ps, info["def"], have, it["name"], path)))
         for n in sorted(set(items) & set(items0)):
             want = map_view(item_view(items0[n], HASHMAP), lambda s: strip_box(sub_ident(s, K, path)))
             got = map_view(item_view(items[n], map_type), strip_box)
